@@ -376,6 +376,9 @@ DeclNames(d) ==
 SigNames(f) == SeqUnion([i \in DOMAIN f.params |-> NamesIn(f.params[i].t)]) \cup SeqUnion([i \in DOMAIN f.ret |-> NamesIn(f.ret[i])])
 \* qualified names (time.Time) are members of imported packages; the parser lists them in the record
 QualifiedNames == IF "qualtypes" \in DOMAIN Progs[pid] THEN {Progs[pid].qualtypes[i] : i \in DOMAIN Progs[pid].qualtypes} ELSE {}
+\* a qualified type name needs its package imported (`type Time = time.Time` without `import "time"` is "undefined: time")
+QualPkgs == IF "qualpkgs" \in DOMAIN Progs[pid] THEN {Progs[pid].qualpkgs[i] : i \in DOMAIN Progs[pid].qualpkgs} ELSE {}
+ImportNames == IF "importnames" \in DOMAIN Progs[pid] THEN {Progs[pid].importnames[i] : i \in DOMAIN Progs[pid].importnames} ELSE QualPkgs
 KnownTypeName(n) == n \in Basic \/ n \in DOMAIN P.types \/ n = "error"
 UndeclaredTypeNames ==
   {n \in UNION {DeclNames(P.types[d]) : d \in DOMAIN P.types} \cup UNION {SigNames(P.funcs[f]) : f \in DOMAIN P.funcs}
@@ -390,7 +393,8 @@ Finish ==
              IN
              IF unusedimp # {} THEN Append(errs, [fn |-> "", why |-> "imported and not used"])
              ELSE IF dupnames THEN Append(errs, [fn |-> "", why |-> "name declared as type and func"])
-             ELSE IF undecl # {} THEN Append(errs, [fn |-> "", why |-> "undefined: " \o (CHOOSE n \in undecl : TRUE)]) ELSE errs
+             ELSE IF undecl # {} THEN Append(errs, [fn |-> "", why |-> "undefined: " \o (CHOOSE n \in undecl : TRUE)])
+             ELSE IF QualPkgs \ ImportNames # {} THEN Append(errs, [fn |-> "", why |-> "undefined: " \o (CHOOSE n \in QualPkgs \ ImportNames : TRUE)]) ELSE errs
   /\ UNCHANGED <<pid, fi, ctl, env>>
 
 Init == pid \in 1..Len(Progs) /\ fi = 1 /\ ctl = <<>> /\ env = <<>> /\ errs = <<>> /\ done = FALSE
